@@ -32,6 +32,9 @@ fn main() {
     if args[1] == "c20-worker" {
         std::process::exit(props::c20::worker_main(&args[2..]));
     }
+    if args[1] == "dump-validator-cases" {
+        std::process::exit(props::selftest::dump_cases(&args[2]));
+    }
     if args[1] == "replay" {
         std::process::exit(props::replay::replay_file(&args[2]));
     }
